@@ -115,6 +115,68 @@ func (ks *KeySet) Full(payload []byte) []byte {
 	return sg
 }
 
+// ---- fault injection: the process "dies" (panics) right before its (k+1)-th durable write ----
+type crashCtl struct {
+	armed     bool
+	remaining int
+	log       []string // labels of the durable writes seen while recording
+	record    bool
+}
+
+type crashSignal struct{}
+
+func (c *crashCtl) hit(label string) {
+	if c.record {
+		c.log = append(c.log, label)
+	}
+	if c.armed {
+		if c.remaining == 0 {
+			c.armed = false
+			panic(crashSignal{})
+		}
+		c.remaining--
+	}
+}
+
+type crashState struct {
+	state.State
+	ctl *crashCtl
+}
+
+func keyLabel(key string) string {
+	switch {
+	case strings.HasSuffix(key, "_fsm_state"):
+		return "Set fsm_state"
+	case strings.HasSuffix(key, "_deleted_operations"):
+		return "Set deleted_operations"
+	case strings.HasSuffix(key, "_operations"):
+		return "Set operations"
+	case strings.HasPrefix(key, "signatures_"):
+		return "Set signatures"
+	}
+	return "Set " + key
+}
+
+func (s crashState) Set(key string, value []byte) error {
+	s.ctl.hit(keyLabel(key))
+	return s.State.Set(key, value)
+}
+
+type crashBoard struct {
+	storage.Storage
+	ctl *crashCtl
+}
+
+func (b crashBoard) Send(msgs ...storage.Message) error {
+	for i := range msgs {
+		b.ctl.hit("Send")
+		if err := b.Storage.Send(msgs[i]); err != nil {
+			return err
+		}
+	}
+	return nil
+}
+
 // ---- a real node on real LevelDB state and a real file board ----
 type NodeEnv struct {
 	Dir    string
@@ -125,6 +187,7 @@ type NodeEnv struct {
 	Node   node.NodeService
 	Rounds map[string]bool
 	nopen  int
+	Ctl    *crashCtl
 }
 
 func NewNodeEnv(base, user string) *NodeEnv {
@@ -146,7 +209,33 @@ func (e *NodeEnv) open(stateDir string) {
 		panic(err)
 	}
 	e.St, e.Board = st, board
-	e.Node = e.buildNode(st, board)
+	if e.Ctl == nil {
+		e.Ctl = &crashCtl{}
+	}
+	e.Node = e.buildNode(crashState{st, e.Ctl}, crashBoard{board, e.Ctl})
+}
+
+// RestartInPlace: new service objects (volatile state lost) over the same durable state.
+func (e *NodeEnv) RestartInPlace() {
+	e.Ctl.armed = false
+	e.Node = e.buildNode(crashState{e.St, e.Ctl}, crashBoard{e.Board, e.Ctl})
+}
+
+// applyCrashMsg handles m but dies before durable write k+1; then the process is restarted.
+func (e *NodeEnv) applyCrashMsg(m storage.Message, k int) {
+	e.Rounds[m.DkgRoundID] = true
+	e.Ctl.armed, e.Ctl.remaining = true, k
+	func() {
+		defer func() {
+			if r := recover(); r != nil {
+				if _, ok := r.(crashSignal); !ok {
+					panic(r)
+				}
+			}
+		}()
+		e.Node.ProcessMessage(m)
+	}()
+	e.RestartInPlace()
 }
 
 func (e *NodeEnv) buildNode(st state.State, board storage.Storage) node.NodeService {
@@ -200,7 +289,7 @@ func (e *NodeEnv) Restart() {
 		panic(err)
 	}
 	e.St = st
-	e.Node = e.buildNode(st, e.Board)
+	e.Node = e.buildNode(crashState{st, e.Ctl}, crashBoard{e.Board, e.Ctl})
 }
 
 // Fork opens a new node on a copy (crash image) of this node's current state and board.
@@ -465,6 +554,7 @@ type NInput struct {
 	Now    int64
 	Result *dto.OperationDTO
 	Label  string
+	CrashK int
 }
 
 func sigDescOf(m storage.Message, users []string) string {
